@@ -613,14 +613,17 @@ func (pool *hostConnPool) connect() (err error) {
 
 	// add the Conn to the pool
 	pool.mu.Lock()
-	defer pool.mu.Unlock()
 
 	if pool.closed {
+		// close it without the lock: a Close that reports an error (TLS
+		// close_notify) comes back through HandleError, which takes pool.mu
+		pool.mu.Unlock()
 		conn.Close()
 		return nil
 	}
 
 	pool.conns = append(pool.conns, conn)
+	pool.mu.Unlock()
 
 	return nil
 }
